@@ -104,8 +104,15 @@ class Resolver:
                     cands[name] = val
                 else:
                     counts[name] += 1  # opaque binding
+        mutated: set[str] = set()
+        for n in walk_own(fn):
+            # a local container that is changed in place after its definition is not its defining expression
+            if isinstance(n, ast.Call) and isinstance(n.func, ast.Attribute) and isinstance(n.func.value, ast.Name) and n.func.attr in ("append", "extend", "insert", "pop", "remove", "sort", "reverse", "clear", "update", "setdefault", "add", "discard"):
+                mutated.add(n.func.value.id)
+            if isinstance(n, ast.Subscript) and isinstance(n.ctx, (ast.Store, ast.Del)) and isinstance(n.value, ast.Name):
+                mutated.add(n.value.id)
         for name, c in counts.items():
-            if c == 1 and name in cands and name not in params and name not in set(keep):
+            if c == 1 and name in cands and name not in params and name not in set(keep) and name not in mutated:
                 self.defs[name] = cands[name]
         self.depth = depth
 
